@@ -219,6 +219,7 @@ class MacroProgram(ElementProgram):
         validate_attributes(ns, TAL, tal.WHITELIST)
         validate_attributes(ns, METAL, metal.WHITELIST)
         validate_attributes(ns, I18N, i18n.WHITELIST)
+        validate_attributes(ns, META, ("interpolation", "xmlns", "xml"))
 
         # Check attributes for language errors
         self._check_attributes(start['namespace'], ns)
